@@ -439,6 +439,14 @@ func runFsSeq(p *FsPlan, system string, keepLog bool) fsSeqResult {
 			}
 		}
 		chk.verifyAll(p.Dirs)
+		if env.k.Real {
+			// on the real kernel descriptors the plan left open are real ones:
+			// over hundreds of thousands of plans they would exhaust the process
+			for f := range chk.open {
+				f := f
+				attempt(func() { api.Close(f) })
+			}
+		}
 		attempt(closeFs)
 	})
 	res.events = r.Events
